@@ -145,7 +145,7 @@ func sliceAlloc() *slice {
 	}
 	return &slice{name: "alloc", g: NewGrammar(rules), tops: []NT{nt(TIntArr), nt(TAnyArr), nt(TAnyMap), nt(TInt), nt(TBool)},
 		modes: []lib.Mode{{Env: "struct", Opt: true}, {Env: "struct", Opt: false}, {Env: "noenv", Opt: true}},
-		maxN:  map[string]int{"quick": 6, "thorough": 8}}
+		maxN:  map[string]int{"quick": 7, "thorough": 9}}
 }
 
 // optim: every context in which an optimizer rewrite can fire.
